@@ -1,5 +1,5 @@
 """T-bits translator for the COMPILE-TIME (literal operand) path of the aarch64 immediate commands (C03 / C04): the text of the arms
-`Command::Ubits | Uscaled | Uslice | Ulist | Urange | Usubone | Usubzero | Usubmod | Ufields | Sbits | Sscaled | Sslice | CUbits | CSscaled | CUrange` of
+`Command::Ubits | Uscaled | Uslice | Ulist | Urange | Usubone | Usubzero | Usubmod | Usum | Ufields | Sbits | Sscaled | Sslice | CUbits | CUsum | CSscaled | CUrange` of
 `compile_instruction` and of `static_range_check` (plugin/src/arch/aarch64/compiler.rs), with `bitmask` of plugin/src/common.rs inlined, is
 executed symbolically for every distinct command group of today's table (parameters are the table's constants) and printed into
 lean/DynasmVerif/Generated/A64Static.lean: `sg<k>_ok v` (the literal is accepted) and `sg<k>_val v` (its contribution `value << offset` to
@@ -19,7 +19,8 @@ SUPPORTED = {"Ubits": ("offset", "bitlen"), "Uscaled": ("offset", "bitlen", "shi
              "Urange": ("offset", "min", "max"), "Usubone": ("offset", "bitlen"), "Usubzero": ("offset", "bitlen"), "Usubmod": ("offset", "bitlen"),
              "Sbits": ("offset", "bitlen"), "Sscaled": ("offset", "bitlen", "shift"), "Sslice": ("offset", "bitlen", "shift"),
              "CUbits": ("bitlen",), "CSscaled": ("bitlen", "shift"), "CUrange": ("min", "max"),
-             "Ufields": ("bitfields",), "Ulist": ("offset", "options")}
+             "Ufields": ("bitfields",), "Ulist": ("offset", "options"), "Usum": ("offset", "bitlen"), "CUsum": ("bitlen",)}
+COUPLED = {"Usum", "CUsum"}
 
 
 class SSym(immtrans.ISym):
@@ -76,7 +77,7 @@ def translate_arm(text, helpers, chk, name, args):
             s.env[p] = rx.Val(const(a, 8), TYPES["u8"])
     m_if = re.search(r"\bif\b", arm)
     prelude, rest = arm[:m_if.start()], arm[m_if.start():]
-    if prelude.strip():
+    if prelude.strip() and name not in COUPLED:
         for st in rx.P(rx.tokenize("{" + prelude + "}")).block()[1]:
             s.exec_stmt(st)
 
@@ -85,7 +86,7 @@ def translate_arm(text, helpers, chk, name, args):
         sub.env = {"value": rx.Val(rx.var("v", 64), TYPES["i64"]),
                    "bias": s.coerce(s.run(rx.parse(a_)), TYPES["i32"]), "range": s.coerce(s.run(rx.parse(b_)), TYPES["u32"]),
                    "scale": s.coerce(s.run(rx.parse(c_)), TYPES["u8"])}
-        for k in ("bias", "range", "scale"):
+        for k in ("bias", "scale") + (() if name in COUPLED else ("range",)):
             if fold(sub.env[k].n).op != "const":
                 raise Untranslatable(f"{name}: argument {k} of static_range_check is not a constant of the table")
         res = sub.exec_body(rx.P(rx.tokenize("{" + chk + "}")).block())
@@ -96,6 +97,39 @@ def translate_arm(text, helpers, chk, name, args):
         s.panic = bor(s.panic, sub.panic)
         return fold(bnot(sub.err)), res.n[0], res.n[1]
 
+    # Usum / CUsum: the operand is coupled to the previous one (lsb + width of the bitfield aliases); both literal here
+    if name in COUPLED:
+        if not re.search(r"let\s+prev_value\s*=\s*if\s+let\s+Some\(FlatArg::Immediate\s*\{\s*value:\s*prev_value\s*\}\s*\)\s*=\s*data\.args\.get\(cursor\s*-\s*1\)", arm):
+            raise Untranslatable(f"{name}: the previous operand is no longer taken from data.args[cursor - 1]")
+        mcs = re.search(r"if\s+let\s+Some\(prev_number\)\s*=\s*as_unsigned_number\(prev_value\)\s*\{\s*if\s+prev_number\s*>\s*mask\s+as\s+u64\s*\{\s*emit_error!\([^;]*\);\s*return\s+Err\(None\);\s*\}\s*;?\s*(.*?)\}\s*else\s*\{\s*None\s*\}\s*;", arm, flags=re.S)
+        if not mcs:
+            raise Untranslatable(f"{name}: the literal branch of the coupled check has changed")
+        s2 = SSym(helpers, True)
+        s2.env = dict(s.env)
+        m_mask = re.search(r"let\s+mask\s*=\s*([^;]+);", arm)
+        if not m_mask:
+            raise Untranslatable(f"{name}: no mask")
+        s2.env["mask"] = s2.coerce(s2.run(rx.parse(m_mask.group(1))), TYPES["u32"])
+        s2.env["prev_number"] = rx.Val(rx.var("prev", 64), TYPES["u64"])
+        s.env, s.panic = s2.env, s.panic
+        too_big = s2.run(rx.parse("prev_number > mask as u64"))
+        inner = mcs.group(1).strip()
+        if name == "Usum":
+            mi = re.fullmatch(r"if\s+let\s+Some\(\((\w+),\s*_\)\)\s*=\s*static_range_check\(value,\s*([^,]+),\s*([^,]+(?:\([^)]*\))?[^,]*),\s*([^)]+)\)\?\s*\{\s*Some\((.*?)\)\s*\}\s*else\s*\{\s*None\s*\}", inner, flags=re.S)
+            mp = re.search(r"if\s+let\s+Some\(number\)\s*=\s*number\s*\{\s*statics\.push\(\((\w+),\s*(.*?)\)\);", arm, flags=re.S)
+            if not mi or not mp:
+                raise Untranslatable("Usum: literal branch shape")
+            ok, biased, scaled = run_check(mi.group(2), mi.group(3), mi.group(4))
+            s.env[mi.group(1)] = biased
+            s.env["number"] = s.coerce(s.run(rx.parse(mi.group(5))), TYPES["u32"])
+            o = fold(s.coerce(s.run(rx.parse(mp.group(1))), TYPES["u8"]).n)
+            val = s.coerce(s.run(rx.parse(mp.group(2))), TYPES["u32"])
+            return fold(band(bnot(too_big.n), ok)), fold(N("shl", (val.n, const(o.k, 32)), 32)), fold(band(bnot(too_big.n), s.panic))
+        mi = re.fullmatch(r"static_range_check\(value,\s*([^,]+),\s*([^,]+(?:\([^)]*\))?[^,]*),\s*([^)]+)\)\?", inner, flags=re.S)
+        if not mi:
+            raise Untranslatable("CUsum: literal branch shape")
+        ok, _, _ = run_check(mi.group(1), mi.group(2), mi.group(3))
+        return fold(band(bnot(too_big.n), ok)), None, fold(band(bnot(too_big.n), s.panic))
     # Ufields: one field per bit of the operand, the last listed field takes bit 0
     mf = re.match(r"if\s+let\s+Some\(\((\w+),\s*(\w+)\)\)\s*=\s*static_range_check\(value,\s*([^,]+),\s*([^,]+),\s*([^)]+)\)\?\s*\{\s*for\s*\(i,\s*&field\)\s*in\s+bitfields\.iter\(\)\.rev\(\)\.enumerate\(\)\s*\{\s*statics\.push\(\(field,\s*(.*?)\)\);\s*\}\s*\}\s*else", rest, flags=re.S)
     if name == "Ufields":
@@ -199,7 +233,7 @@ def translate_all():
             ok = band(ok, o)
             if v is not None:
                 val = N("or", (val, v), 32)
-        out.append((key, fold(ok), fold(val), fold(pan)))
+        out.append((key, fold(ok), fold(val), fold(pan), any(n in COUPLED for (n, _) in g)))
     return out
 
 
@@ -210,8 +244,22 @@ def emit_lean(tr, path):
          "set_option maxRecDepth 100000", "set_option maxHeartbeats 1000000",
          "namespace DynasmVerif.A64Static", "open DynasmVerif.A64 DynasmVerif.A64Enc DynasmVerif.Enc", ""]
     names = []
-    for k, (key, ok, val, pan) in enumerate(tr):
+    for k, (key, ok, val, pan, coupled) in enumerate(tr):
         L.append(f"/-- `{key}` -/")
+        if coupled:
+            # `prev` = the previous (literal) operand the command is coupled to
+            L.append(f"def sg{k}_ok (prev v : BitVec 64) : Bool := {rx.lean(ok)}")
+            L.append(f"def sg{k}_val (prev v : BitVec 64) : BitVec 32 := {rx.lean(val)}")
+            L.append(f"def sg{k}_overflow (prev v : BitVec 64) : Bool := {rx.lean(pan)}")
+            L.append(f"theorem sg{k}_is_model (prev v : BitVec 64) :")
+            L.append(f"    sg{k}_ok prev v = (slotStatic {key} prev v).1 ∧ (sg{k}_ok prev v = true → sg{k}_val prev v = (slotStatic {key} prev v).2) ∧")
+            L.append(f"    (sg{k}_overflow prev v = true → sg{k}_ok prev v = false) := by")
+            L.append(f"  simp only [sg{k}_ok, sg{k}_val, sg{k}_overflow]")
+            L.append("  enc_unfold")
+            L.append("  bv_decide (config := { timeout := 120 })")
+            L.append("")
+            names.append(f"sg{k}_is_model")
+            continue
         L.append(f"def sg{k}_ok (v : BitVec 64) : Bool := {rx.lean(ok)}")
         L.append(f"def sg{k}_val (v : BitVec 64) : BitVec 32 := {rx.lean(val)}")
         L.append(f"def sg{k}_overflow (v : BitVec 64) : Bool := {rx.lean(pan)}")
@@ -233,7 +281,7 @@ def emit_lean(tr, path):
 if __name__ == "__main__":
     tr = translate_all()
     print(len(tr), "groups")
-    for key, ok, val, pan in tr[:6]:
+    for key, ok, val, pan, _ in tr[:6]:
         print(key, "| ok:", rx.lean(ok)[:150], "| val:", rx.lean(val)[:150])
     names = emit_lean(tr, "/tmp/A64Static.lean")
     print(len(names), "theorems")
